@@ -118,3 +118,25 @@ Proof.
       destruct (spec_type t); try discriminate. inversion E; split; reflexivity. }
     split; f_equal; assumption.
 Qed.
+
+(* ------------------------------------------------------------------ well-formedness *)
+Lemma leaf_rows_wf : forall l, varlink_wf (leaf_row l) = true.
+Proof. intros l; destruct l; vm_compute; reflexivity. Qed.
+
+Lemma wf_optional d : varlink_wf d = true -> (forall x, d <> TOptional x) -> varlink_wf (TOptional d) = true.
+Proof. intros W N. destruct d; cbn [varlink_wf] in *; try exact W; try reflexivity. exfalso. now apply (N d). Qed.
+
+Theorem descriptions_wellformed : forall ty,
+  supported ty -> nested_option ty = false -> users_wf ty = true ->
+  exists d, type_of ty = Some d /\ varlink_wf d = true.
+Proof.
+  induction ty as [l|c a IH|d|]; cbn [supported nested_option users_wf type_of]; intros S N U.
+  - exists (leaf_row l). split; [reflexivity|apply leaf_rows_wf].
+  - apply orb_false_elim in N as [N1 N2]. destruct (IH S N2 U) as [d [T W]].
+    rewrite T. cbn [option_map]. exists (apply_shape (ctor_row c) d). split; [reflexivity|].
+    destruct (ctor_row c); cbn [apply_shape]; try exact W.
+    apply wf_optional; [exact W|]. intros x E. subst d.
+    unfold describes_optional in N1. rewrite T in N1. discriminate.
+  - exists d. split; [reflexivity|exact U].
+  - contradiction.
+Qed.
